@@ -17,8 +17,8 @@ from sismic.exceptions import (ContractError, PreconditionError, PostconditionEr
                                NonDeterminismError, ConflictingTransitionsError)
 
 PLAN = {
-    'quick': [(2, 3, 2), (4, 4, 1)],
-    'thorough': [(2, 4, 2), (5, 5, 1)],
+    'quick': [(2, 4, 2)],
+    'thorough': [(2, 4, 2), (5, 5, 2)],
 }
 KINDS = (('pre', PreconditionError), ('post', PostconditionError), ('inv', InvariantError))
 ERR = {'pre': 'PreconditionError', 'post': 'PostconditionError', 'inv': 'InvariantError'}
